@@ -253,9 +253,21 @@ from pybufrkit.tables import TableGroupCacheManager as T
 s = open(sys.argv[2], 'rb').read()
 out = []
 try:
-    for m in generate_bufr_message(Decoder(), s):
+    for m in generate_bufr_message(Decoder(), s, continue_on_error=(len(sys.argv) > 4 and sys.argv[4] == '1')):
         td = m.template_data.value
-        out.append({'cat': m.data_category.value,
+        fix = None
+        try:
+            # the template as Table B/D give it (before the NCEP repair) and as the decoder used it (after)
+            sys.path.insert(0, sys.argv[3])
+            import bufrlib as B
+            ids = m.unexpanded_descriptors.value
+            tmpl, tg = m.build_template(None, normalize=1)
+            class _T: pass
+            raw = _T(); raw.members = tg.descriptors_from_ids(*ids)
+            fix = {'raw': B.template_tokens(raw), 'fixed': B.show_descs(tmpl.members)}
+        except BaseException as e:
+            fix = {'err': type(e).__name__ + ': ' + str(e)[:100]}
+        out.append({'cat': m.data_category.value, 'fix': fix,
                     'vals': [[v.decode('latin-1') if isinstance(v, bytes) else v for v in vs] for vs in td.decoded_values_all_subsets],
                     'isbytes': [[isinstance(v, bytes) for v in vs] for vs in td.decoded_values_all_subsets],
                     'labels': [[str(d) for d in ds] for ds in td.decoded_descriptors_all_subsets]})
@@ -267,12 +279,16 @@ print(json.dumps(res))
 '''
 
 
-def run_child(stream):
+def run_child_coe(stream):
+    return run_child(stream, coe=True)
+
+
+def run_child(stream, coe=False):
     with tempfile.NamedTemporaryFile(dir=os.path.join(lib.VERIF, 'replays'), suffix='.bufr', delete=False) as f:
         f.write(stream)
         path = f.name
     try:
-        p = subprocess.run([sys.executable, '-c', CHILD, lib.REPO, path], stdout=subprocess.PIPE, stderr=subprocess.PIPE,
+        p = subprocess.run([sys.executable, '-c', CHILD, lib.REPO, path, os.path.join(lib.VERIF, 'harness'), '1' if coe else '0'], stdout=subprocess.PIPE, stderr=subprocess.PIPE,
                            text=True, timeout=300, env=dict(os.environ, PYTHONHASHSEED='0'))
         return json.loads(p.stdout.strip().split('\n')[-1]) if p.stdout.strip() else {'err': 'no output: ' + p.stderr[-300:], 'ok': []}
     finally:
@@ -307,6 +323,16 @@ def check_data(ctx, h, dv, do, case):
         ctx.violation({'kind': 'C20-definitions-not-governing', 'case': case, 'decoded': str(dv['vals'])[:300],
                        'expected': str(h['expect'])[:300], 'labels': dv['labels']},
                       'data message after the definition message does not decode according to the definitions')
+    fx = dv.get('fix') or {}
+    if 'raw' in fx:
+        # NcepFix.fixl (proved: C20_ncep_*) on the template as the tables give it = the template the decoder used
+        mo = lib.run_model(['ncepfix ' + fx['raw']])[0]
+        ctx.dist['ncep-repair-compared' + ('-nested' if h.get('nested') else '')] += 1
+        if mo.split(' ')[:2] != ['ok', fx['fixed'] or '-']:
+            ctx.compare(dict(case, what='template after _fix_ncep_descriptors'), fx['fixed'][:300], mo[:300],
+                        kind='C20-ncep-repair', holds=lambda: ok)
+    elif 'err' in fx:
+        ctx.dist['ncep-repair-template-not-rebuilt: ' + fx['err'][:40]] += 1
     if not do.startswith('ok '):
         ctx.compare(dict(case, what='model decode'), 'ok', do, kind='C20-model-decode', holds=lambda: ok)
     else:
@@ -380,6 +406,44 @@ def run(ctx):
                                       for e in h['b_defs']))
         check_data(ctx, h, res['ok'][1], do, case)
         ctx.sample({'b_defs': h['b_defs'][:2], 'ids': h['ids'], 'expect': str(h['expect'])[:120]}, limit=3)
+    # DEF, then a message whose template ENDS with a replication that has nothing to replicate (a damaged descriptor list,
+    # or a replication-only sequence used last), then DATA; scanned with continue_on_error: whatever the middle message does,
+    # nothing but a library error may come out of the NCEP repair (D33), DATA is decoded by the definitions, and the
+    # template the decoder used for the middle message is NcepFix.fixl of the one the tables give
+    n3 = ctx.n(16, 300)
+    hist3, streams3 = [], []
+    for k in range(n3):
+        h = random_history(rng, 30000 + k)
+        dm, _ = def_message(h['b_defs'], h['d_defs'])
+        tail = rng.choice([[101000, 31001], [101002], [102000, 31001], [103002]] + [[r] for r in h['reponly']])
+        h['dangling'] = [1001] + tail
+        mid = craft_message(h['dangling'], '0' * 64)
+        data = craft_message(h['ids'], h['bits'])
+        hist3.append(h)
+        streams3.append(dm + mid + rng.choice([b'', b'\r\r\n']) + data)
+    with ThreadPoolExecutor(max_workers=8) as ex:
+        results3 = list(ex.map(run_child_coe, streams3))
+    douts3 = lib.run_model([decu_line(h) for h in hist3])
+    for h, res, do in zip(hist3, results3, douts3):
+        case = {'k': h['k'], 'b_defs': h['b_defs'], 'd_defs': h['d_defs'], 'ids': h['ids'], 'bits': h['bits'],
+                'dangling_template': h['dangling'], 'continue_on_error': True}
+        ctx.count(('dangling', h['k']), True)
+        ctx.dist['dangling replication after a definition message: %s' % ('replication-only sequence' if h['dangling'][1] >= 300000
+                                                                            else str(h['dangling'][1:]))] += 1
+        if 'err' in res or len(res['ok']) < 2:
+            ctx.violation({'kind': 'C20-dangling-replication', 'case': case, 'result': str(res)[:400]},
+                          'DEF, a message whose template %s ends with a replication, DATA (continue_on_error): %s'
+                          % (h['dangling'], str(res.get('err'))[:160]))
+            continue
+        if len(res['ok']) == 3:
+            fx = res['ok'][1].get('fix') or {}
+            if 'raw' in fx:
+                mo = lib.run_model(['ncepfix ' + fx['raw']])[0]
+                ctx.dist['ncep-repair-compared-dangling'] += 1
+                if mo.split(' ')[:2] != ['ok', fx['fixed'] or '-']:
+                    ctx.compare(dict(case, what='template after _fix_ncep_descriptors (dangling replication)'), fx['fixed'][:300],
+                                mo[:300], kind='C20-ncep-repair', holds=lambda: True)
+        check_data(ctx, h, res['ok'][-1], do, case)
     # two definition messages in one stream: DEF1 DATA1 DEF2 DATA2, DEF2 defining some of DEF1's ids AGAIN with other
     # attributes / members: what follows DEF2 is decoded by DEF2, DATA1 (before it) by DEF1
     n2 = ctx.n(24, 500)
